@@ -193,13 +193,14 @@ func (o *functionOperator) Next(ctx context.Context) ([]model.StepVector, error)
 		// scalar() depends on number of samples per vector and returns NaN if len(samples) != 1.
 		// So need to handle this separately here, instead of going via call which is per point.
 		if o.funcExpr.Func.Name == "scalar" {
-			if len(vector.Samples) <= 1 {
+			if len(vector.Samples) != 1 {
+				// An empty vector and a vector with several elements both yield NaN.
+				vectors[batchIndex].Samples = append(vector.Samples[:0], math.NaN())
+				vectors[batchIndex].SampleIDs = append(vector.SampleIDs[:0], 0)
 				continue
 			}
-
-			vectors[batchIndex].Samples = vector.Samples[:1]
-			vectors[batchIndex].SampleIDs = vector.SampleIDs[:1]
-			vector.Samples[0] = math.NaN()
+			// The result is a scalar, it does not belong to any input series.
+			vector.SampleIDs[0] = 0
 			continue
 		}
 
